@@ -719,9 +719,11 @@ pub fn encode_with_fixed_block_size<T: Source>(
     stream
         .stream_info_mut()
         .set_md5_digest(&context.md5_digest());
+    // The number of samples actually consumed, not `src.len_hint()`: a hint may
+    // disagree with what was delivered (e.g. a partially read `MemSource`).
     stream
         .stream_info_mut()
-        .set_total_samples(src.len_hint().unwrap_or_else(|| context.total_samples()));
+        .set_total_samples(context.total_samples());
     Ok(stream)
 }
 
